@@ -132,6 +132,12 @@ pub trait FromMeta: Sized {
                 // we just propagate the call to the inner expression.
                 Self::from_expr(&group.expr)
             }
+            Expr::Unary(ref unary) => match negative_lit(unary) {
+                // syn only folds the minus sign into the literal when the value ends the
+                // attribute; `#[x(a = -1, b)]` arrives here as a negation of a literal.
+                Some(lit) => Self::from_value(&lit),
+                None => Err(Error::unexpected_expr_type(expr)),
+            },
             _ => Err(Error::unexpected_expr_type(expr)),
         }
         .map_err(|e| e.with_span(expr))
@@ -153,6 +159,25 @@ pub trait FromMeta: Sized {
     #[allow(unused_variables)]
     fn from_bool(value: bool) -> Result<Self> {
         Err(Error::unexpected_type("bool"))
+    }
+}
+
+/// Returns the negative numeric literal denoted by `-<int or float literal>`, if `expr` is one.
+fn negative_lit(expr: &syn::ExprUnary) -> Option<Lit> {
+    use syn::spanned::Spanned;
+
+    if let (syn::UnOp::Neg(_), Expr::Lit(inner)) = (&expr.op, &*expr.expr) {
+        let repr = match inner.lit {
+            Lit::Int(ref lit) => format!("-{}", lit),
+            Lit::Float(ref lit) => format!("-{}", lit),
+            _ => return None,
+        };
+
+        let mut lit = syn::parse_str::<Lit>(&repr).ok()?;
+        lit.set_span(expr.span());
+        Some(lit)
+    } else {
+        None
     }
 }
 
